@@ -566,6 +566,9 @@ __CPROVER_assigns(__CPROVER_object_upto(naf_arr, naf_arr_size), *naf_arr_items_c
 __CPROVER_assigns(VF_EC_STATUS_ASSIGNS)
 __CPROVER_ensures(VF_EC_STATUS_ENSURES)
 __CPROVER_ensures(__CPROVER_return_value == 0 ==> *naf_arr_items_cnt_ret <= naf_arr_size)
+/* count <= bits + 1 (C01: "reported count within bits + 1"), instance for scalars below 8 */
+__CPROVER_ensures((__CPROVER_return_value == 0 && (bn->digits == 0 || (bn->digits == 1 && bn->num[0] < 8))) ==>
+    *naf_arr_items_cnt_ret <= 4)
 __CPROVER_ensures(__CPROVER_return_value == 0 ==> __CPROVER_forall { size_t vf_qn; (vf_qn < (size_t)BN_BIT_LEN) ==>
     (vf_qn >= naf_arr_size || (VF_NAF_DIGIT_OK(naf_arr[vf_qn], wnd_bits) &&
      (vf_qn < *naf_arr_items_cnt_ret || naf_arr[vf_qn] == 0))) })
